@@ -92,7 +92,10 @@ def calls_of(expr, out):
     k = expr[0]
     if k == "sub":
         n = expr[1]
-        for a in n.args:
+        if any(c is n for c in out):
+            return out
+        # inlined symbols of the alternative in symbol order (used by the action or not), then the action itself
+        for a in list(getattr(n, "pre", [])) + list(n.args):
             calls_of(a, out)
         if n.kind in ("user", "fallible"):
             out.append(n)
@@ -367,7 +370,46 @@ def harness_for(g: G.Grammar, pidx, gp, sp, variants, p, ph, nstart, below=True)
     return name, "\n".join(L) + "\n", "spec"
 
 
-def prepare(grammars, crate_name="e2", algo="lane"):
+def tts_harnesses(body, p, ph):
+    """Harnesses for the terminal-conversion chain of corpus/actions.TTS_TERMS: real __token_to_integer -> real
+    __token_to_symbol -> real __reduce of the production `S = "<terminal>"`, symbolic captured values; the recording
+    action must receive the captures in written order.  -> [(name, text, description)]"""
+    info = read_module(body, p)
+    out = []
+    for i, (tname, pat, tys, _) in enumerate(A.TTS_TERMS):
+        pidx = [k for k, gp in info["prods"].items() if gp["lhs"] == "S" and gp["rhs"] == ('"%s"' % tname,)]
+        if len(pidx) != 1:
+            raise K.Inconclusive("tts: no unique generated production S = \"%s\" (%s)" % (tname, pidx))
+        L = ["        #[kani::proof]", "        #[kani::unwind(14)]", "        pub fn tts_%d() {" % i,
+             '            // terminal "%s" => %s' % (tname, pat % tuple("<%s>" % t for t in tys)),
+             "            use crate::rec_tts as rec;", "            rec::reset(255);"]
+        for j, t in enumerate(tys):
+            L.append("            let c%d: %s = kani::any();" % (j, t))
+        L.append("            let tok = %s;" % (pat % tuple("c%d" % j for j in range(len(tys)))))
+        L.append('            let idx = match %stoken_to_integer(&tok, %s) { Some(i) => i, None => panic!("declared terminal not recognised by __token_to_integer") };' % (p, ph))
+        L.append("            let sym = %stoken_to_symbol(idx, tok, %s);" % (p, ph))
+        L.append("            let (bs, be, s0, e0): (usize, usize, usize, usize) = (kani::any(), kani::any(), kani::any(), kani::any());")
+        L.append("            let mut symbols: alloc::vec::Vec<(usize, %sSymbol, usize)> = alloc::vec![(bs, %stoken_to_symbol(idx, %s, %s), be), (s0, sym, e0)];" %
+                 (p, p, pat % tuple("0" for _ in tys), ph))
+        L.append("            let st: [St; 3] = kani::any();")
+        L.append("            let mut states: alloc::vec::Vec<St> = alloc::vec![st[0], st[1], st[2]];")
+        L.append("            let r = %sreduce(%d, None, &mut states, &mut symbols, %s);" % (p, pidx[0], ph))
+        L.append('            assert!(r.is_none(), "an ordinary reduction returns None");')
+        L.append('            assert!(rec::n() == 1, "number of user-action calls (each tree node once; none after a failing action)");')
+        L.append('            assert!(rec::id(0) == %d, "call 0 is action %d (post-order, left to right)");' % (i + 1, i + 1))
+        words = [w for j, t in enumerate(tys) for w in A.tts_words(t, "c%d" % j)]
+        L.append('            assert!(rec::nargs(0) == %d, "argument count");' % len(words))
+        for wi, w in enumerate(words):
+            L.append('            assert!(rec::arg(0, %d) == (%s), "argument %d of call 0 (captures of a terminal in written order)");' % (wi, w, wi))
+        L.append('            assert!(symbols.len() == 2, "k symbols popped, one pushed");')
+        L.append('            kani::cover!(true, "a run without a failing action");')
+        L.append("            core::mem::forget(symbols); core::mem::forget(states);")
+        L.append("        }")
+        out.append(("tts_%d" % i, "\n".join(L) + "\n", 'tts: "%s" => %s' % (tname, pat % tuple("<%s>" % t for t in tys))))
+    return out
+
+
+def prepare(grammars, crate_name="e2", algo="lane", tts=False):
     """-> (crate, [(harness, description)], notes)"""
     crate = K.KaniCrate(crate_name)
     lib = ["#![allow(unused, non_snake_case, non_camel_case_types, static_mut_refs)]", "extern crate alloc;"]
@@ -419,6 +461,21 @@ def prepare(grammars, crate_name="e2", algo="lane"):
         lib.append("pub mod g_%s;" % g.name)
         lib.append(e1.tok_module(g))
         lib.append(REC_MOD.replace("@G@", g.name))
+    if tts:
+        text, tokmod = A.tts_grammar()
+        gen = K.run_generator(text, "tts", env=dict(K.ALGOS[algo][1]))
+        if not gen.ok:
+            raise K.Inconclusive("generator rejected the terminal-conversion grammar: %s" % gen.out.strip().splitlines()[-3:])
+        mods = e1.find_parse_mods(gen.rs)
+        a, b, p = mods["S"]
+        body = gen.rs[a:b]
+        ph = e1.phantom_expr(body, p)
+        hs = tts_harnesses(body, p, ph)
+        inj_text, _ = inject_one(gen.rs, "S", mods, "\n".join(t for _, t, _ in hs))
+        crate.write("g_tts.rs", inj_text)
+        lib += ["pub mod g_tts;", tokmod, REC_MOD.replace("@G@", "tts")]
+        for name, _, d in hs:
+            harnesses.append(("g_tts::%sparse%sS::verif_inj::%s" % (p, p, name), d, "spec"))
     crate.write("lib.rs", "\n".join(lib) + "\n")
     return crate, harnesses, notes
 
